@@ -285,6 +285,14 @@ FAMILY_POOLS = {
     "boolean": [("true", "boolean"), ("false", "boolean"), ("1", "boolean"), ("0", "boolean"), ("TRUE", "boolean"), ("abc", "boolean")],
     "string": [("a", None), ("a", "string"), ("b", None), ("A", "string"), ("", None), ("", "string"), ("a b", "token"), (" a  b ", "token"),
                ("a\tb", "normalizedString"), ("a b", "normalizedString"), ("ab", None), ("http://x", "anyURI"), ("http://y", "anyURI")],
+    "time": [("21:32:52", "time"), ("21:32:52Z", "time"), ("23:32:52+02:00", "time"), ("21:32:52+02:00", "time"), ("19:32:52Z", "time"),
+             ("21:32:52.5", "time"), ("00:00:00", "time"), ("24:00:00", "time"), ("01:00:00-05:00", "time"), ("06:00:00Z", "time"), ("abc", "time")],
+    "duration": [("P1D", "duration"), ("PT24H", "duration"), ("PT1440M", "duration"), ("P30D", "duration"), ("-P1D", "duration"), ("PT0S", "duration"),
+                 ("P1Y", "duration"), ("P12M", "duration"), ("P13M", "duration"), ("P1M", "duration"), ("P1Y2M3DT4H5M6S", "duration"), ("abc", "duration"),
+                 ("P1D", "dayTimeDuration"), ("PT24H", "dayTimeDuration"), ("PT25H", "dayTimeDuration"), ("PT1S", "dayTimeDuration"),
+                 ("P1Y", "yearMonthDuration"), ("P12M", "yearMonthDuration"), ("P13M", "yearMonthDuration"), ("-P1Y", "yearMonthDuration")],
+    "binary": [("0FB7", "hexBinary"), ("0fb7", "hexBinary"), ("0FB8", "hexBinary"), ("", "hexBinary"), ("0F", "hexBinary"), ("FF", "hexBinary"), ("xyz", "hexBinary"),
+               ("AAEC", "base64Binary"), ("AAE=", "base64Binary"), ("AAED", "base64Binary"), ("", "base64Binary"), ("/w==", "base64Binary"), ("!!!", "base64Binary")],
     "illtyped": [("abc", "integer"), ("abd", "integer"), ("", "integer"), ("5x", "integer"), ("x", "http://e/dt"), ("y", "http://e/dt"),
                  ("xy", "http://e/dt"), ("abc", "dateTime"), ("abd", "dateTime")],
 }
@@ -620,6 +628,8 @@ def _covered(a, b):
 import datetime as _dtm  # noqa: E402
 import decimal as _dec  # noqa: E402
 
+from rdflib.xsd_datetime import Duration as _Duration  # noqa: E402
+
 _EPOCH = _dtm.datetime(1, 1, 1)
 _US = _dtm.timedelta(microseconds=1)
 
@@ -654,6 +664,21 @@ def _vcode(v):
         return "t:%d/%s" % (wall, "-" if off is None else str(off // _US))
     if type(v) is _dtm.date:
         return "d:%d" % v.toordinal()
+    if type(v) is bytes:
+        return "y:" + _cps(v.decode("latin-1"))
+    if type(v) is _dtm.time:
+        off = v.utcoffset()
+        if off is not None and off % _dtm.timedelta(seconds=1):
+            return "o"      # CPython ignores the sub-second part of an offset when it compares times
+        wall = ((v.hour * 60 + v.minute) * 60 + v.second) * 1000000 + v.microsecond
+        return "T:%d/%s" % (wall, "-" if off is None else str(off // _US))
+    if type(v) is _dtm.timedelta:
+        return "D:0/%d/0" % (v // _US)
+    if type(v) is _Duration:
+        m = v.years * 12 + v.months
+        if m != int(m):
+            return "o"
+        return "D:%d/%d/1" % (int(m), v.tdelta // _US)
     return "o"
 
 
@@ -676,11 +701,14 @@ NUMERIC_SPEC = {XSD + n for n in ("integer", "decimal", "double", "float", "byte
 
 
 def _vclass(v):
-    """Python type class of a carried value: str | num | dtm | date; None for a NaN or a type that is not carried"""
+    """Python type class of a carried value: str | num | dtm | date | bytes | tim | tdelta; None for a NaN, a Duration
+    (no order) or a type that is not carried"""
     c = _vcode(v)
     if c in ("-", "o", "nan"):
         return None
-    return {"s": "str", "b": "num", "n": "num", "p": "num", "t": "dtm", "d": "date"}[c[0]]
+    if c[0] == "D" and c.endswith("/1"):
+        return None      # a Duration has no order: in no family
+    return {"s": "str", "b": "num", "n": "num", "p": "num", "t": "dtm", "d": "date", "y": "bytes", "T": "tim", "D": "tdelta"}[c[0]]
 
 
 def _family(t):
@@ -1681,8 +1709,8 @@ _NAIVE = _dt.datetime(2001, 10, 26, 21, 32, 52)
 _AWARE = _dt.datetime(2001, 10, 26, 21, 32, 52, tzinfo=_dt.timezone(_dt.timedelta(hours=2)))
 
 
-def _caster_flag(v):
-    c = T._TOTAL_ORDER_CASTERS.get(_dt.datetime)
+def _caster_flag(v, typ=None):
+    c = T._TOTAL_ORDER_CASTERS.get(typ or _dt.datetime)
     if c is None:
         return False
     k = c(v)
@@ -1731,7 +1759,9 @@ def TABLES():
          "/-- `datetime.datetime in rdflib.term._TOTAL_ORDER_CASTERS` and what its caster does with a naive and an aware value:",
          "    the first component of the key it returns (probed) -/",
          "def castsDatetime : Bool := " + _lbool(_dt.datetime in T._TOTAL_ORDER_CASTERS),
-         "def casterAwareFlag : Bool × Bool := (" + ", ".join(_lbool(_caster_flag(x)) for x in (_NAIVE, _AWARE)) + ")", "",
+         "def casterAwareFlag : Bool × Bool := (" + ", ".join(_lbool(_caster_flag(x)) for x in (_NAIVE, _AWARE)) + ")",
+         "def castsTime : Bool := " + _lbool(_dt.time in T._TOTAL_ORDER_CASTERS),
+         "def casterAwareFlagTime : Bool × Bool := (" + ", ".join(_lbool(_caster_flag(x, _dt.time)) for x in (_NAIVE.time(), _AWARE.timetz())) + ")", "",
          "def xsdString : List Char := " + _lchars(str(T._XSD_STRING)),
          "def xsdNormalizedString : List Char := " + _lchars(str(T._XSD_NORMALISED_STRING)),
          "def xsdToken : List Char := " + _lchars(str(T._XSD_TOKEN)),
